@@ -1,3 +1,4 @@
+import F3.Proofs.SkelTieStore
 import F3.Proofs.StoreCrash
 import F3.Proofs.StoreWitness
 /-!
@@ -281,4 +282,21 @@ example : (deleteAll ds2 wipeOrder).ws.length = 8 ∧ Wiping (crashAt ds2 (delet
 example : NotInit (crashAt [] (createWrites 3 F3.Store.Witness.T0) 1) ∧ Canon F3.Store.Witness.T0 ∧ F3.Store.Witness.T0 ≠ [] :=
   ⟨notInit_create_prefix F3.Store.Witness.notInit_nil 3 _, F3.Store.Witness.canon_T0, by decide⟩
 
+end F3.Props.C10
+
+namespace F3.Props.C10
+section Skeletons
+
+/-- **The Go functions this property's models mirror still have the statement structure the models were written
+against**: each regenerated skeleton (pre-order list of statement kinds, `tools/go2lean/skel.go`) equals the pinned
+expectation of `F3/Proofs/SkelTie*.lean`. An added early return, cap, loop or dropped branch in one of these functions
+breaks this obligation even when no regenerated *expression* changes. -/
+theorem code_structure_as_modelled :
+    F3.Gen.SkelStore.skelStorePut = F3.SkelTie.SkelStore.skelStorePutExpected ∧
+    F3.Gen.SkelStore.skelStoreGetRange = F3.SkelTie.SkelStore.skelStoreGetRangeExpected ∧
+    F3.Gen.SkelStore.skelStoreOpen = F3.SkelTie.SkelStore.skelStoreOpenExpected ∧
+    F3.Gen.SkelStore.skelExportSnapshot = F3.SkelTie.SkelStore.skelExportSnapshotExpected :=
+  ⟨F3.SkelTie.SkelStore.skelStorePut_expected, F3.SkelTie.SkelStore.skelStoreGetRange_expected, F3.SkelTie.SkelStore.skelStoreOpen_expected, F3.SkelTie.SkelStore.skelExportSnapshot_expected⟩
+
+end Skeletons
 end F3.Props.C10
